@@ -8,6 +8,72 @@ From RecordUpdate Require Import RecordSet.
 Import RecordSetNotations.
 Open Scope N_scope.
 
+(* the four component types are implicit in the engine functions, locally to this file *)
+#[local] Arguments init {enc dec} _ {ores ires} _ _.
+#[local] Arguments release {enc dec ores ires} _ _ _ _.
+#[local] Arguments disconnect_completion {enc dec ores ires} _ _.
+#[local] Arguments fail_op {enc dec ores ires} _ _ _ _.
+#[local] Arguments ping_extension {enc dec ores ires} _ _.
+#[local] Arguments succeed_op {enc dec ores ires} _ _ _ _.
+#[local] Arguments fail_all {enc dec ores ires} _ _ _ _.
+#[local] Arguments succeed_all {enc dec ores ires} _ _ _.
+#[local] Arguments andthen {enc dec ores ires} _ _.
+#[local] Arguments try_ {enc dec ores ires} _ _.
+#[local] Arguments pure {enc dec ores ires} _.
+#[local] Arguments create_operation {enc dec ores ires} _ _.
+#[local] Arguments passes_now {enc dec ores ires} _ _ _.
+#[local] Arguments user_event {enc dec ores ires} _ _ _ _.
+#[local] Arguments create_connect {enc dec ores ires} _ _.
+#[local] Arguments net_opened {enc dec} _ {ores ires} _ _ _.
+#[local] Arguments op_exists {enc dec ores ires} _ _.
+#[local] Arguments op_passes {enc dec ores ires} _ _ _.
+#[local] Arguments partition_policy {enc dec ores ires} _ _ _.
+#[local] Arguments closed_current {enc dec ores ires} _ _.
+#[local] Arguments slow_start_init {enc dec ores ires} _ _.
+#[local] Arguments update_retries {enc dec ores ires} _ _.
+#[local] Arguments fail_exceeding {enc dec ores ires} _ _.
+#[local] Arguments has_pubrel {enc dec ores ires} _ _.
+#[local] Arguments net_closed_raw {enc dec ores ires} _ _.
+#[local] Arguments net_closed {enc dec ores ires} _ _.
+#[local] Arguments net_write_completion {enc dec ores ires} _ _.
+#[local] Arguments acquire_free_pid {enc dec ores ires} _ _.
+#[local] Arguments acquire_pid_for {enc dec ores ires} _ _.
+#[local] Arguments unbind {enc dec ores ires} _ _.
+#[local] Arguments passes_receive_max {enc dec ores ires} _ _.
+#[local] Arguments throttled {enc dec ores ires} _ _.
+#[local] Arguments has_pending_ack {enc dec ores ires} _.
+#[local] Arguments dequeue {enc dec ores ires} _ _ _.
+#[local] Arguments fully_written {enc dec ores ires} _ _.
+#[local] Arguments service_keep_alive {enc dec ores ires} _ _ _.
+#[local] Arguments process_ack_timeouts {enc dec ores ires} _ _ _.
+#[local] Arguments halt_on_error {enc dec ores ires} _ _.
+#[local] Arguments next_service_time {enc dec ores ires} _ _ _.
+#[local] Arguments build_settings {enc dec ores ires} _ _ _.
+#[local] Arguments apply_session {enc dec ores ires} _ _ _.
+#[local] Arguments hres_of {enc dec ores ires} _ _.
+#[local] Arguments pre_connack {enc dec ores ires} _.
+#[local] Arguments sum_ss {enc dec ores ires} _.
+#[local] Arguments handle_pingresp {enc dec ores ires} _.
+#[local] Arguments handle_suback {enc dec ores ires} _ _ _.
+#[local] Arguments handle_unsuback {enc dec ores ires} _ _ _.
+#[local] Arguments publish_qos_of {enc dec ores ires} _ _.
+#[local] Arguments handle_puback {enc dec ores ires} _ _ _.
+#[local] Arguments handle_pubrec {enc dec ores ires} _ _ _.
+#[local] Arguments handle_pubrel {enc dec ores ires} _ _.
+#[local] Arguments handle_pubcomp {enc dec ores ires} _ _ _.
+#[local] Arguments handle_publish {enc dec ores ires} _ _.
+#[local] Arguments handle_disconnect {enc dec ores ires} _ _ _.
+#[local] Arguments is_connect_op {enc dec ores ires} _ _.
+#[local] Arguments connect_in_queue {enc dec ores ires} _.
+#[local] Arguments reset {enc dec ores ires} _ _.
+#[local] Arguments out_of_res {enc dec ores ires} _ _.
+#[local] Arguments nst_queue {enc dec ores ires} _ _ _ _.
+#[local] Arguments earliest_tmo {enc dec ores ires} _.
+#[local] Arguments SeatStop {enc dec ores ires} _.
+#[local] Arguments SeatContinue {enc dec ores ires} _ _.
+#[local] Arguments SeatEncode {enc dec ores ires} _.
+
+
 Lemma NoDup_move_last {A} (x : A) (l m : list A) : NoDup (x :: l ++ m) -> NoDup (l ++ m ++ [x]).
 Proof.
   intros H. rewrite app_assoc. eapply Permutation_NoDup; [apply Permutation_cons_append|exact H].
@@ -30,7 +96,7 @@ Section Loop.
   Variable v_out : option settings -> connect_opts -> resolution -> packet -> outcome unit.
   Variable v_in : option settings -> packet -> outcome unit.
   Variable cfg : config.
-  Hypothesis HC : comps_ok enc enc_reset enc_call dec dec_feed ores ores_resolve ires ires_resolve v_out v_in.
+  Variable HC : comps_ok enc enc_reset enc_call dec dec_init dec_feed ores ores_reset ores_resolve ires ires_reset ires_resolve v_out v_in.
 
   Notation state := (state enc dec ores ires).
   Notation seat_current := (seat_current enc enc_reset dec ores ores_reset ores_resolve ires v_out cfg).
@@ -207,22 +273,22 @@ Section Loop.
 
   Definition lp (st0 : pstate) (r : sres enc dec ores ires) : Prop :=
     (forall site, sr_out r <> Panic site) /\ WFS (sr_s r) /\ (sr_out r = Ok tt -> WFP cfg (sr_s r)) /\
-    (s_st (sr_s r) = st0 \/ s_st (sr_s r) = PendingDisconnect).
+    (s_st (sr_s r) = st0 \/ s_st (sr_s r) = PendingDisconnect) /\ cinv HC (sr_s r).
 
-  Lemma lp_err (s : state) acc dn k : WFS s -> lp (s_st s) (mkSres s acc dn (Err k)).
-  Proof. intros H. unfold lp. cbn. splits; auto; intros; discriminate. Qed.
+  Lemma lp_err (s : state) acc dn k : WFS s -> cinv HC s -> lp (s_st s) (mkSres s acc dn (Err k)).
+  Proof. intros H HI. unfold lp. cbn. splits; auto; intros; discriminate. Qed.
 
   Lemma lp_weaken st0 st1 r : lp st1 r -> st1 = st0 \/ st1 = PendingDisconnect -> lp st0 r.
-  Proof. intros (A & B & C & D) H. unfold lp. splits; auto. destruct D as [D|D]; [|tauto]. rewrite D. exact H. Qed.
+  Proof. intros (A & B & C & D & E) H. unfold lp. splits; auto. destruct D as [D|D]; [|tauto]. rewrite D. exact H. Qed.
 
   Lemma encode_step_spec k now cap fill (s5 : state) acc dn :
-    WF cfg s5 -> live s5 -> s_cur s5 <> None -> 4 <= cap ->
-    (forall s7 acc', WF cfg s7 -> s_cur s7 = None -> qlen s7 = qlen s5 ->
+    WF cfg s5 -> cinv HC s5 -> live s5 -> s_cur s5 <> None -> 4 <= cap ->
+    (forall s7 acc', WF cfg s7 -> cinv HC s7 -> s_cur s7 = None -> qlen s7 = qlen s5 ->
                      (s_st s7 = s_st s5 \/ s_st s7 = PendingDisconnect) -> lp (s_st s7) (k s7 acc')) ->
     lp (s_st s5) (encode_step k now cap fill s5 acc dn).
   Proof.
-    intros [HW HP] Hl Hc Hcap Hk. unfold encode_step. destruct (s_cur s5) as [id|] eqn:Ec; [|congruence].
-    destruct (op_exists s5 id) eqn:Eex; cbn [negb]; [|apply lp_err; exact HW].
+    intros [HW HP] HI Hl Hc Hcap Hk. unfold encode_step. destruct (s_cur s5) as [id|] eqn:Ec; [|congruence].
+    destruct (op_exists s5 id) eqn:Eex; cbn [negb]; [|apply lp_err; assumption].
     assert (Hex : exists o, getop s5 id = Some o).
     { unfold op_exists in Eex. unfold getop. destruct (lookup id (s_ops s5)) as [o|]; [eauto|discriminate]. }
     destruct Hex as (o & Ho).
@@ -230,9 +296,12 @@ Section Loop.
     { unfold WFP in HP. destruct Hl as [E|E]; rewrite E in HP; tauto. }
     destruct (Hcok id o Ec Ho) as (Henc & Hbound).
     destruct (s_enc s5) as [e|] eqn:Ee; [|congruence].
-    destruct (enc_call e (fill + len acc) cap) as [[out e']|kk|site] eqn:Ecall; [|apply lp_err; exact HW|].
-    2:{ exfalso. exact (co_enc_call _ _ _ _ _ _ _ _ _ _ _ HC _ _ _ _ Hcap Ecall). }
+    destruct (co_enc_call HC e (fill + len acc) cap (proj1 HI e Ee) Hcap) as (Hnpc & Hinvc).
+    destruct (enc_call e (fill + len acc) cap) as [[out e']|kk|site] eqn:Ecall; [|apply lp_err; assumption|].
+    2:{ exfalso. eapply Hnpc. reflexivity. }
     cbv zeta. set (s6 := s5 <| s_enc := Some e' |>).
+    assert (HI6 : cinv HC s6).
+    { destruct HI as (_ & B & C & D). unfold cinv. cbn. splits; auto. intros e0 He0. inversion He0; subst. eapply Hinvc. reflexivity. }
     assert (HW6 : WFS s6) by exact HW.
     assert (HP6 : WFP cfg s6).
     { eapply (WFP_view s5 s6); [reflexivity| |exact HP]. intros _. cbn. discriminate. }
@@ -245,6 +314,7 @@ Section Loop.
     { rewrite S7. destruct (is_disconnect (op_packet o)); tauto. }
     eapply lp_weaken; [|exact Hst7]. apply Hk.
     - split; [exact HW7|]. eapply (WFP_written s6 s7 id o now); eauto.
+    - eapply cinv_comp; [|exact HI6]. unfold comp_of. pose proof K7 as Kt. unfold but_fw in Kt. tuple_eqs Kt. congruence.
     - exact C7.
     - unfold but_fw in K7. tuple_eqs K7. unfold qlen. cbn in *. congruence.
     - exact Hst7.
@@ -267,10 +337,10 @@ Section Loop.
   Proof. unfold live. destruct (s_st s); cbn; intros H; try discriminate; tauto. Qed.
 
   Lemma service_loop_spec : forall f (s : state) m now cap fill acc dn,
-    WF cfg s -> (s_st s = PendingConnack -> m = false) -> (mu s < f)%nat -> 4 <= cap ->
+    WF cfg s -> cinv HC s -> (s_st s = PendingConnack -> m = false) -> (mu s < f)%nat -> 4 <= cap ->
     lp (s_st s) (service_loop f s m now cap fill acc dn).
   Proof.
-    induction f as [|f IH]; intros s m now cap fill acc dn [HW HP] Hm Hmu Hcap; [lia|].
+    induction f as [|f IH]; intros s m now cap fill acc dn [HW HP] HI Hm Hmu Hcap; [lia|].
     rewrite service_loop_S.
     destruct (negb (pstate_eqb (s_st s) PendingConnack || pstate_eqb (s_st s) Connected)) eqn:Eg.
     { unfold lp. cbn. splits; auto. intros; discriminate. }
@@ -279,8 +349,8 @@ Section Loop.
     - (* an operation is already seated *)
       assert (Es : seat_current s m acc dn = SeatEncode s) by (unfold Model.seat_current; rewrite Ec; reflexivity).
       rewrite Es. apply encode_step_spec; auto; [split; assumption|congruence|].
-      intros s7 acc' HW7 Hc7 Hq Hst.
-      apply IH; [exact HW7|intros E; apply Hm; destruct Hst; congruence| |exact Hcap]. unfold mu in *. rewrite Hc7, Hq, Ec in *. lia.
+      intros s7 acc' HW7 HI7 Hc7 Hq Hst.
+      apply IH; [exact HW7|exact HI7|intros E; apply Hm; destruct Hst; congruence| |exact Hcap]. unfold mu in *. rewrite Hc7, Hq, Ec in *. lia.
     - assert (H9 : W9 cfg s).
       { intros E. unfold WFP in HP. rewrite E in HP. tauto. }
       assert (Hv : s_settings s <> None \/
@@ -289,11 +359,11 @@ Section Loop.
         - right. split; [auto|]. intros id o Hi Ho. destruct HP as (_ & _ & _ & _ & A5 & _).
           destruct (A5 id (or_introl Hi)) as (o1 & Ho1 & C1 & _). congruence.
         - left. tauto. }
-      pose proof (seat_gen _ _ _ _ _ _ ores_reset _ _ _ _ _ _ HC s m acc dn HW Ec H9 Hv) as Hpost.
+      pose proof (seat_gen _ _ _ _ _ _ _ _ _ _ _ _ _ _ _ HC s m acc dn HW Ec H9 Hv HI) as Hpost.
       destruct (seat_current s m acc dn) as [r|s5 dn'|s5]; cbn [seat_post] in Hpost.
-      + destruct Hpost as (P1 & P2 & P3 & P4 & P5). unfold lp. splits; auto; [intros E; rewrite (P3 E); exact HP|].
+      + destruct Hpost as (P0 & P1 & P2 & P3 & P4 & P5). unfold lp. splits; auto; [intros E; rewrite (P3 E); exact HP|].
         destruct P5 as [P5|P5]; [left; exact P5|destruct Hl; congruence].
-      + destruct Hpost as (HW5 & Hc5 & id & Hcase).
+      + destruct Hpost as (HI5 & HW5 & Hc5 & id & Hcase).
         assert (H5 : WFP cfg s5 /\ s_st s5 = s_st s /\ qlen s = S (qlen s5)).
         { destruct Hcase as [(G & K & D & Eo & Ee)|(s4 & Hsd & F & Hc4 & H95 & Hg)].
           - split; [eapply WFP_skip; eauto|]. split; [|eapply dq_rel_qlen; eauto].
@@ -306,20 +376,20 @@ Section Loop.
             + rewrite (dq_rel_qlen _ _ _ _ D). unfold qlen. congruence. }
         destruct H5 as (HP5 & Hst5 & Hq5).
         rewrite <- Hst5.
-        apply IH; [split; assumption|rewrite Hst5; exact Hm| |exact Hcap]. unfold mu in *. rewrite Hc5, Ec in *. lia.
-      + destruct Hpost as (HW5 & id & Hsd & Hc5 & He5).
+        apply IH; [split; assumption|exact HI5|rewrite Hst5; exact Hm| |exact Hcap]. unfold mu in *. rewrite Hc5, Ec in *. lia.
+      + destruct Hpost as (HI5 & HW5 & id & Hsd & Hc5 & He5).
         assert (HP5 : WFP cfg s5) by exact (WFP_seated m s s5 id HW HP Hl Ec Hm Hsd Hc5 He5).
         assert (Hst5 : s_st s5 = s_st s) by (destruct Hsd as [K _ _ _ _]; unfold seat_keep in K; tuple_eqs K; congruence).
         assert (Hq5 : qlen s = S (qlen s5)) by (destruct Hsd as [_ D _ _ _]; eapply dq_rel_qlen; eauto).
         rewrite <- Hst5.
         apply encode_step_spec; auto; [split; assumption|unfold live in *; rewrite Hst5; exact Hl|congruence|].
-        intros s7 acc' HW7 Hc7 Hq Hst.
-        apply IH; [exact HW7|intros E; apply Hm; rewrite <- Hst5; destruct Hst; congruence| |exact Hcap].
+        intros s7 acc' HW7 HI7 Hc7 Hq Hst.
+        apply IH; [exact HW7|exact HI7|intros E; apply Hm; rewrite <- Hst5; destruct Hst; congruence| |exact Hcap].
         unfold mu in *. rewrite Hc7, Hq, Ec in *. lia.
   Qed.
 End Loop.
 
 Arguments WFP_view {enc dec ores ires} cfg s s' _ _ _.
-Arguments lp {enc dec ores ires} cfg st0 r.
+Arguments lp {enc enc_reset enc_call dec dec_init dec_feed ores ores_reset ores_resolve ires ires_reset ires_resolve v_out v_in} cfg HC st0 r.
 Arguments live {enc dec ores ires} s.
 Arguments wfp_view {enc dec ores ires} s.
